@@ -10,3 +10,7 @@ CONSTANTS
   SeekTs = 5
   PartBarrierByShards = FALSE
   MayStop = TRUE
+  MaxRestarts = 0
+  StopForgetsParts = TRUE
+  DropRemembered = TRUE
+  MayStartAgain = FALSE
